@@ -42,12 +42,29 @@ def arms(b, tm, self_local=1):
         return None
     out = {}
     t = b.term(sw)
+    all_targets = {x for _, x in t["targets"]} | {t["otherwise"]}
     for v, tg in t["targets"]:
         r = cfg.reachable_from(b, tg)
+        own = cfg.reachable_from(b, tg, stop=all_targets - {tg})      # blocks only this arm runs before the arms join
         vals = []
         for bi, si, rv in lib.assignments_to_return(b):
             if bi in r:
-                vals.append(tm.call_term(bi) if si == "term" else tm.rvalue(rv))
+                val = tm.call_term(bi) if si == "term" else tm.rvalue(rv)
+                # a value computed per arm and wrapped after the join (`let x = match ..; Some(x)`): take this arm's definition
+                for _ in range(4):
+                    opaque = [x for x in T.walk(val) if x[0] == "l"]
+                    done = True
+                    for x in opaque:
+                        defs = [(dbi, dsi) for (dbi, dsi) in b.whole_defs(x[1]) if dbi in own]
+                        if len(defs) == 1:
+                            dbi, dsi = defs[0]
+                            dt = tm.call_term(dbi) if dsi == "term" else tm.rvalue(b.blocks[dbi]["stmts"][dsi]["rv"])
+                            val = T.subst(val, x, dt)
+                            done = False
+                    if done:
+                        break
+                if bi in own or not any(bi2 in own for bi2, _, _ in lib.assignments_to_return(b)):
+                    vals.append(val)
         out[v] = vals
     return out
 
